@@ -53,10 +53,10 @@ LEVEL_NOTE = (
     "service-code table and header rules written from KNXnet/IP Core in vk/strategies/knxip.py."
 )
 
-# step budget: measured maximum on valid frames is ~14 steps/octet + ~150 (see coverage.budget)
+# step budget: measured on valid frames: <= ~12.5 steps/octet, <= ~1500 steps for the largest (350 octet) frames; headroom >= 70x (see coverage.budget)
 A_STEPS = 6000
 B_STEPS = 400
-# memory budget (tracemalloc peak of the call): measured maximum on valid frames ~ 1 KiB + 150 B/octet
+# memory budget (tracemalloc peak of the call): measured maximum on valid frames ~13 KiB; headroom >= 190x
 A_MEM = 256 * 1024
 B_MEM = 8 * 1024
 HEADROOM = 20
